@@ -709,8 +709,9 @@ fn gen_history<L: Layer>(r: &mut Rng, w: &World, pool: &Pool, n: usize) -> Vec<O
             74..=81 => Op::RmStatic { w: wi, id: biased(r, &statics) },
             82..=89 => Op::RmTemplate { w: wi, id: biased(r, &tpls) },
             90..=96 => Op::Merge { w: wi, rename: r.chance(60) },
+            _ if pool.templates.is_empty() => Op::Add { w: wi, id: id(r), text: r.pick(&pool.statics).clone() },
             _ => {
-                let text = r.pick(&pool.templates[..3]).clone();
+                let text = r.pick(&pool.templates[..pool.templates.len().min(3)]).clone();
                 let (p, rs) = slots_of(&text);
                 let env = if r.chance(80) { (if p { Some(w.principal.clone()) } else { None }, if rs { Some(w.resource.clone()) } else { None }) } else { (None, Some(w.resource.clone())) };
                 let tid = id(r);
